@@ -150,8 +150,10 @@ Proof. vm_compute. reflexivity. Qed.
    or owned by exactly the producer that is between its compare-and-set and its commit, in the state
    that producer's program counter dictates; head cache <= head <= head' <= tail <= head + capacity;
    what the consumer has walked over in the read in progress is committed.
-   `reach lo` = reachable by any schedule as long as the tail stays within 2^30 bytes of lo (the code
-   truncates position differences to 32 bits; a head value staler than that is not covered). *)
+   `reach lo` = reachable by any schedule as long as the tail stays below 2^62 - 2 capacities (positions are
+   i64 in the code; lo is any lower bound >= 0 of the head values, e.g. the initial head cache).  Since
+   fixes/C06-claim-capacity-i64.diff the capacity checks compare in 64 bits, so a head value of any staleness
+   is sound and no window on the positions is needed. *)
 
 Theorem C06_conc_invariant : forall lo m c0 c, Inv lo c0 -> reach lo m c0 c -> Inv lo c.
 Proof. exact reach_inv. Qed.
@@ -163,7 +165,7 @@ Proof. exact step_inv. Qed.
 Print Assumptions C06_conc_step.
 
 Theorem C06_conc_initial : forall R limits progs,
-  wf R -> Forall (Forall wreq_ok) progs -> 0 <= r_hc R <= two61 -> r_tail R + 2 * r_cap R <= r_hc R + two30 ->
+  wf R -> Forall (Forall wreq_ok) progs -> r_tail R + 2 * r_cap R <= two62 ->
   Inv (r_hc R) (start R limits progs).
 Proof. exact inv_start. Qed.
 Print Assumptions C06_conc_initial.
@@ -237,12 +239,21 @@ Example C06_conc_example :
 Proof. split; [| split; [| split; [| repeat split; vm_compute; reflexivity]]].
   - change (Inv (r_hc (init 64 40 40 0)) (start (init 64 40 40 0) [5; 5] [[(1, payload 0 8); (3, payload 2 0)]; [(2, payload 1 3)]])).
     apply inv_start.
-    + apply wf_init; [exists 6; split; [lia | reflexivity] | lia | reflexivity | unfold two31; lia].
+    + apply wf_init; [exists 6; split; [lia | reflexivity] | lia | reflexivity].
     + repeat (constructor; try (right; reflexivity)).
-    + cbn. unfold two61. lia.
-    + cbn. unfold two30. lia.
+    + cbn. unfold two62. lia.
   - apply loginv_start.
-    + apply wf_init; [exists 6; split; [lia | reflexivity] | lia | reflexivity | unfold two31; lia].
+    + apply wf_init; [exists 6; split; [lia | reflexivity] | lia | reflexivity].
     + repeat (constructor; try (right; reflexivity)).
   - assert (E : replay_ok 40 Debug ex_k0 ex_sched = Some ex_k) by (vm_compute; reflexivity).
     exact (replay_reach _ _ _ _ _ _ E (reach_refl _ _ _)). Qed.
+
+(* the arithmetic before fixes/C06-claim-capacity-i64.diff: with a head cache stale by 2^32 - 8 bytes and a
+   completely full 16-byte ring (tail - head = 16) the truncated difference is 8, so 8 bytes look available;
+   in 64 bits the available capacity is negative and the write is refused *)
+Example C06_stale_cache_witness :
+  avail_before_fix Release 16 (8589934592 + 16) (8589934592 - 4294967296 + 8) = Ok 8 /\
+  avail Release 16 (8589934592 + 16) (8589934592 - 4294967296 + 8) = Ok (-4294967288) /\
+  snd (run Debug (init 16 8589934592 4294967304 0) [OpWrite 1 []; OpWrite 2 []; OpWrite 3 []]) =
+    [OW (Ok 0) 8589934592 8589934600; OW (Ok 0) 8589934592 8589934608; OW (Err InsufficientCapacity) 8589934592 8589934608].
+Proof. repeat split; vm_compute; reflexivity. Qed.
